@@ -39,16 +39,64 @@ var ruleSnifferMap = &core.Rule{ID: "R12.1", Min: 4,
 		}
 		if cm.html != nil {
 			s.Check(reach(cm.html, usesTok) && !reach(cm.html, usesXML), "text/html -> HTML sniffer", c.Pos(cm.html.Pos()), core.FName(cm.html)+" reaches html.NewTokenizer", "the function registered for text/html does not run the HTML meta prescan (or runs the XML decoder)")
-			s.Check(reachesFn(cm.html, cm.plain, map[*ssa.Function]bool{}) || reachesFn(cm.html, getPlain(c).g, map[*ssa.Function]bool{}), "text/html falls back to plain sniffing", c.Pos(cm.html.Pos()), "reaches the plain sniffer", "HTML sniffer never falls back to byte sniffing")
+			fallsBack(c, s, cm, cm.html, "text/html falls back to plain sniffing", "HTML")
 		}
 		if cm.xml != nil {
 			s.Check(reach(cm.xml, usesXML) && !reach(cm.xml, usesTok), "text/xml -> XML sniffer", c.Pos(cm.xml.Pos()), core.FName(cm.xml)+" reaches xml.NewDecoder", "the function registered for text/xml does not read the XML declaration (or runs the HTML tokenizer)")
-			s.Check(reachesFn(cm.xml, cm.plain, map[*ssa.Function]bool{}) || reachesFn(cm.xml, getPlain(c).g, map[*ssa.Function]bool{}), "text/xml falls back to plain sniffing", c.Pos(cm.xml.Pos()), "reaches the plain sniffer", "XML sniffer never falls back to byte sniffing")
+			fallsBack(c, s, cm, cm.xml, "text/xml falls back to plain sniffing", "XML")
 		}
 		if cm.plain != nil {
 			s.Check(reach(cm.plain, usesValid) && !reach(cm.plain, usesTok) && !reach(cm.plain, usesXML), "text/plain -> plain sniffer", c.Pos(cm.plain.Pos()), core.FName(cm.plain)+" validates UTF-8, no markup parsing", "the function registered for text/plain is not the byte sniffer")
 		}
 	}}
+
+// fallsBack: the markup sniffer f ends in the plain sniffer (which looks for a
+// byte-order mark first, R11.3), or calls the byte-scanning body of the plain
+// sniffer directly on its own input after its own BOM lookup came back empty.
+func fallsBack(c *core.Ctx, s *core.Sink, cm *charsetModel, f *ssa.Function, key, what string) {
+	if reachesFn(f, cm.plain, map[*ssa.Function]bool{}) {
+		s.OK(key, c.Pos(f.Pos()), "reaches the plain sniffer")
+		return
+	}
+	body := getPlain(c).g
+	if body == cm.plain || !reachesFn(f, body, map[*ssa.Function]bool{}) {
+		s.Bad(key, c.Pos(f.Pos()), what+" sniffer never falls back to byte sniffing")
+		return
+	}
+	var direct []*ssa.Call
+	for _, ci := range core.Calls(f) {
+		if call, ok := ci.(*ssa.Call); ok && call.Call.StaticCallee() == body {
+			direct = append(direct, call)
+		}
+	}
+	if len(direct) == 0 {
+		s.Und(key, c.Pos(f.Pos()), "the "+what+" sniffer reaches the byte-scanning body of the plain sniffer only through helpers: whether a byte-order mark was looked for first is not modelled")
+		return
+	}
+	cm.needBOM()
+	for _, call := range direct {
+		guarded := false
+		for _, de := range core.DominatingConds(call.Block()) {
+			cond, val := core.StripNot(de.Cond, de.Val)
+			bo, ok := cond.(*ssa.BinOp)
+			if !ok {
+				continue
+			}
+			bc, isCall := bo.X.(*ssa.Call)
+			if !isCall || bc.Call.StaticCallee() != cm.bomFn || bc.Call.Args[0] != ssa.Value(f.Params[0]) {
+				continue
+			}
+			if k, isK := core.ConstString(bo.Y); isK && k == "" && ((bo.Op == token.NEQ && !val) || (bo.Op == token.EQL && val)) {
+				guarded = true
+			}
+		}
+		if !guarded || call.Call.Args[0] != ssa.Value(f.Params[0]) {
+			s.Bad(key, c.Pos(call.Pos()), "the "+what+" sniffer falls back to the byte-scanning body of the plain sniffer without having looked for a byte-order mark on its input: a BOM no longer decides the charset of a document without a declaration")
+			return
+		}
+	}
+	s.OK(key, c.Pos(f.Pos()), "calls the byte-scanning body on its own input after its own BOM lookup came back empty")
+}
 
 // R12.2
 var ruleDecoderTypestate = &core.Rule{ID: "R12.2", Min: 1,
